@@ -51,6 +51,8 @@ def observe(shape) -> str:
         norm(ctx)
     except TypeError as e:          # the wrapped call did not fit the callable's signature
         return f"other:call-TypeError:{e}"
+    except Exception as e:  # noqa: BLE001 - e.g. a different callable than the one handed in was invoked
+        return f"other:call-raised:{type(e).__name__}"
     if seen == [(1, [])]:
         return "ctx"
     if seen == [(3, [])]:
